@@ -90,7 +90,9 @@ func checkTaiListSpec(c *listCtx) {
 		return
 	}
 	shapes := [][]plmnText{repeatPlmns(1, plmnA), repeatPlmns(3, plmnA), repeatPlmns(16, plmnA), repeatPlmns(17, plmnA), repeatPlmns(32, plmnA), repeatPlmns(33, plmnA), repeatPlmns(40, plmnA),
-		{plmnA, plmnB}, repeatPlmns(16, plmnA, plmnB), repeatPlmns(17, plmnA, plmnB), repeatPlmns(35, plmnA, plmnC)}
+		{plmnA, plmnB}, repeatPlmns(16, plmnA, plmnB), repeatPlmns(17, plmnA, plmnB), repeatPlmns(35, plmnA, plmnC),
+		// later partial lists that are each of one PLMN, not the PLMN of the first element
+		append(repeatPlmns(16, plmnA), repeatPlmns(4, plmnB)...), append(append(repeatPlmns(16, plmnA), repeatPlmns(16, plmnC)...), repeatPlmns(3, plmnA)...), append(repeatPlmns(3, plmnB), repeatPlmns(15, plmnA)...)}
 	for _, plmns := range shapes {
 		c.r.Site("dec.tai-list")
 		it := newListInterp(c.w)
